@@ -775,7 +775,7 @@ func runSysCase(c sysCase, col *collector, sec *vh.Section) {
 				p.spec = append(p.spec, adopted...)
 				nEvents += len(adopted)
 			default:
-				if wfOK && !cutShort && op.Tags != "" && p.line != "" {
+				if wfOK && !cutShort && !badEv && op.Tags != "" && p.line != "" {
 					specFail(st, "valid-write-rejected", "", "a well-formed write is rejected: "+werr.Error(), "rejected", "acknowledged")
 				}
 			}
